@@ -248,6 +248,9 @@ func (w *FSWorld) Write(n int) string {
 	if n >= 2 {
 		payload[n-1] = '\n'
 	}
+	if n >= 4 {
+		payload[1] = '%' // event bytes are data, not a format string
+	}
 	e := &el.Event{Type: "t", Formatted: map[string][]byte{el.JSONFormat: payload}}
 	t0 := w.clock()
 	wasOpen := w.mOpen
